@@ -452,7 +452,10 @@ def parseSchedLetters (n : Nat) (s : String) : Option (List Nat) :=
     Immutable promise whose calls are Fulfill, Fail, Wait (any values, nil included) and Recover
     on a *non-recoverable* promise (a refused Recover): exactly one Fulfill/Fail reports success,
     every call returns when a Fulfill/Fail exists, and every Wait delivers the winner's Result
-    (with relay: possibly with the relayed error). -/
+    (with relay: possibly with the relayed error).
+
+    Mutable promise whose calls are Fulfill and Wait: every Fulfill succeeds; a Wait delivers
+    the value of one of them. -/
 def promSpec (f : Flags) (calls : List Call) (obs : String) : Option String :=
   if obs.startsWith "crash:" then some ("no_panic " ++ obs)
   else if obs == "hang" then some "no_deadlock hang"
@@ -468,6 +471,19 @@ def promSpec (f : Flags) (calls : List Call) (obs : String) : Option String :=
         some "no_deadlock: a Fulfill/Fail/Recover/Break never returned"
       else if probeReturned && rets.any (· == "-") then
         some "no_deadlock: a Wait is blocked although the promise holds a Result"
+      else
+      -- mutable promise with Fulfill and Wait callers only ("Mutable promises may have their value
+      -- state changed with subsequent Fulfill calls"): every Fulfill succeeds, and a Wait
+      -- delivers the value of one of them, without error
+      let mutScope := f.mutable && calls.all fun c => match c with
+        | .fulfill _ => true
+        | .wait => true
+        | _ => false
+      if mutScope && cr.any (fun (c, r) => match c with | .fulfill _ => r != "ok" | _ => false) then
+        some "mutable_fulfill_replaces: a Fulfill on a mutable promise that carries no error did not succeed"
+      else if mutScope && cr.any (fun (c, r) => c == .wait && r != "-" &&
+          !(calls.any fun c' => match c' with | .fulfill v => r == showResP ⟨v, none⟩ | _ => false)) then
+        some "mutable_fulfill_replaces: a Wait delivered a Result that no Fulfill supplied"
       else
       let inScope := !f.mutable && calls.all fun c => match c with
         | .fulfill _ => true
